@@ -19,6 +19,37 @@ CHECKS = {
             TRUST + "modelled not verified: std BufWriter; assumes an all-or-nothing underlying writer whose flush succeeds",
             "machine-checked proof (Coq 8.16) on a hand-written model + differential correspondence check",
             "DESIGN.md 8.C05"),
+    "C06": ("proof",
+            "Coq theorems (Props/C06.v: c06_ack, c06_once_in_order, c06_own_emit, c06_flush_point, c06_flush_idem) about "
+            "Model/Writer.v for a never-failing underlying writer, all capacities/terminators/histories: every emit is "
+            "acknowledged with its length, the successful line writes carry exactly the emitted fitting metrics once and "
+            "in order, oversized ones go out alone during their own emit, a successful flush leaves nothing buffered; "
+            "tied to io.rs by the correspondence check, conservation clauses also evaluated on the implementation's log",
+            TRUST + "modelled not verified: std BufWriter; zero-length lines excluded from identity statements; "
+            "client.flush / queuing flush delegation validated by the harness only",
+            "machine-checked proof (Coq 8.16) on a hand-written model + differential correspondence check",
+            "DESIGN.md 8.C06"),
+    "C07": ("proof",
+            "Coq theorems (Props/C07.v: c07_results, c07_ledger, c07_ledger_final, c07_no_dup, c07_no_resurrection, "
+            "c07_next_success, c07_frame_after) about Model/Writer.v for EVERY fault script (ok/error/interrupted per "
+            "attempted write): results are Ok or the error of a write made during that call, never a panic; written ++ "
+            "pending = acknowledged fitting metrics in order at every moment; no duplicates; an emit that failed is never "
+            "written; framing unaffected.  Tied to io.rs by the correspondence check with exhaustive fault placement at "
+            "small scope, clauses also evaluated on the implementation's log",
+            TRUST + "modelled not verified: std BufWriter (incl. retry on Interrupted, data kept on failure); "
+            "all-or-nothing underlying writer",
+            "machine-checked proof (Coq 8.16) on a hand-written model + differential correspondence check with fault enumeration",
+            "DESIGN.md 8.C07"),
+    "C19": ("proof",
+            "Coq theorems (Props/C19.v: c19_must_and_maximal, c19_buffer, c19_reset, c19_greedy_optimal) about "
+            "Model/Writer.v at every reachable state: an emit writes only if buffered+metric+terminator >= capacity, "
+            "every datagram it flushes could not have taken the new metric, a strictly fitting emit writes nothing; "
+            "next-fit packing is optimal among in-order partitions (pure lemma).  The step from the two local clauses to "
+            "the datagram count of a whole segment is checked on the implementation's log (greedy count), not proved",
+            TRUST + "modelled not verified: std BufWriter; c19_optimal is partial (local maximality proved, global count "
+            "validated by the check)",
+            "machine-checked proof (Coq 8.16) on a hand-written model + differential correspondence check",
+            "DESIGN.md 8.C19"),
 }
 
 PENDING = "check not built yet in this session (under construction; not a claim that the technique cannot apply)"
